@@ -4,13 +4,18 @@ from harness.common import *  # noqa
 ABSENT = 'b' * 64
 
 
-def _delete(what, h0, s0, s1, s2, s3, d0, d1, d2, d3, dabs, do_repack):
-    """obj0 loose; obj1 loose and packed; obj2, obj3 packed (pack 0 = hole, obj1, obj2, obj3)."""
+def _delete(what, h0, s0, s1, s2, s3, d0, d1, d2, d3, dabs, do_repack, in_max=950, z2=False, z3=False, zl=20, direct=False):
+    """obj0 loose; obj1 loose and packed; obj2, obj3 packed (pack 0 = hole, obj1, obj2, obj3); obj2/obj3 stored
+    compressed iff z2/z3 (compressed length zl); ``in_max`` = the SQL IN-batch size (symbolic small, so that the request
+    is split into several chunks); ``direct``: repack_pack('0') on its own, then a NEW handle answers the views."""
     w = make_world(10**9)
     try:
-        w.set_pack(0, [('junk', 0, h0), ('obj', 1, s1), ('obj', 2, s2), ('obj', 3, s3)])
+        w.set_zlen(2, s2, zl)
+        w.set_zlen(3, s3, zl)
+        w.set_pack(0, [('junk', 0, h0), ('obj', 1, s1), ('zobj' if z2 else 'obj', 2, s2), ('zobj' if z3 else 'obj', 3, s3)])
         w.put_loose(0, s0)
         w.put_loose(1, s1)
+        w.c._IN_SQL_MAX_LENGTH = in_max
         sizes = [s0, s1, s2, s3]
         flags = [d0, d1, d2, d3]
         req = [w.key(i, sizes[i]) for i in range(4) if flags[i]]
@@ -26,7 +31,13 @@ def _delete(what, h0, s0, s1, s2, s3, d0, d1, d2, d3, dabs, do_repack):
             return False
         if what == 'views' or not do_repack:
             return views_ok(w.c, w, objs, ABSENT)
-        w.c.repack()
+        if direct:
+            if len(after.pack_ids()):
+                w.c.repack_pack('0')
+            w.c.close()
+            w.c = w.new_handle()
+        else:
+            w.c.repack()
         final = w.image()
         if what == 'reach':
             return len(final.pack_ids()) > 0
@@ -49,6 +60,24 @@ def _delete(what, h0, s0, s1, s2, s3, d0, d1, d2, d3, dabs, do_repack):
         return views_ok(w.c, w, objs, ABSENT)
     finally:
         w.cleanup()
+
+
+def delete_chunks(h0: int, s0: int, s2: int, d0: bool, d1: bool, d2: bool, d3: bool, dabs: bool, in_max: int, z2: bool, z3: bool, zl: int) -> bool:
+    """
+    delete_objects with the request split into SQL IN-chunks of in_max keys, compressed and plain packed objects, repack.
+    pre: 0 <= h0 <= 3 and 1 <= s0 <= 70000 and 1 <= s2 <= 70000 and 1 <= in_max <= 3 and 2 <= zl <= 70000
+    post: _
+    """
+    return _delete('inv', h0, s0, 7, s2, 9, d0, d1, d2, d3, dabs, True, in_max, z2, z3, zl)
+
+
+def delete_repack_pack(h0: int, s0: int, s2: int, d0: bool, d1: bool, d2: bool, d3: bool, dabs: bool, in_max: int, z2: bool, z3: bool, zl: int) -> bool:
+    """
+    as delete_chunks, but repack_pack('0') is called on its own and the views are answered by a new handle.
+    pre: 0 <= h0 <= 3 and 1 <= s0 <= 70000 and 1 <= s2 <= 70000 and 1 <= in_max <= 3 and 2 <= zl <= 70000
+    post: _
+    """
+    return _delete('inv', h0, s0, 7, s2, 9, d0, d1, d2, d3, dabs, True, in_max, z2, z3, zl, True)
 
 
 def delete_repack(h0: int, s0: int, s1: int, s2: int, s3: int, d0: bool, d1: bool, d2: bool, d3: bool, dabs: bool) -> bool:
